@@ -2301,3 +2301,16 @@ func (s *socketStore) get(sid string) (socket *serverSocket, ok bool) {
 	}
 	return
 }""")
+
+# round 4 C16
+mutant("c16-fanout-under-nondeferred-lock-can-panic", "C16", "C16-D2", "adapter/adapter_session_aware.go",
+       """		a.packets = append(a.packets, packet)
+		a.mu.Unlock()
+	}
+	a.inMemoryAdapter.Broadcast(header, v, opts)""",
+       """		a.packets = append(a.packets, packet)
+		a.inMemoryAdapter.Broadcast(header, v, opts)
+		a.mu.Unlock()
+		return
+	}
+	a.inMemoryAdapter.Broadcast(header, v, opts)""")
